@@ -108,7 +108,7 @@ fn user_null_probe(t: i32, st: &Shape, complete: bool) -> Option<String> {
 /// prefix, a THIRD type offered after a second one was refused, and a first shape whose type is
 /// NullShape (a user-defined one: the library's own null shape is not writable). Each history
 /// is a list of (shape, accepted?) and is compared with the same history without the refused calls.
-fn extra_histories(t: i32, u: i32, v: i32, st: &Shape, su: &Shape, sv: &Shape) -> Vec<(String, String)> {
+fn extra_histories(t: i32, u: i32, v: i32, st: &Shape, su: &Shape, sv: &Shape, big: &Shape, su_special: &Shape, dir: Option<&str>) -> Vec<(String, String)> {
     #[derive(Clone, Copy)]
     enum Call<'a> {
         W(&'a Shape, i32),
@@ -156,6 +156,10 @@ fn extra_histories(t: i32, u: i32, v: i32, st: &Shape, su: &Shape, sv: &Shape) -
         ("third-type", true, t, vec![(w(st, t), true), (w(su, u), false), (w(sv, v), false), (w(su, u), false), (w(st, t), true)]),
         ("first-type-NullShape", true, 0, vec![(Call::Null, true), (w(st, t), false), (Call::Null, true), (Call::F, true), (w(su, u), false)]),
         ("first-type-NullShape/index-less", false, 0, vec![(Call::Null, true), (w(st, t), false), (Call::Null, true)]),
+        // the files have grown well beyond 8 KiB / 64 KiB when the refusal comes
+        ("large-file", true, t, vec![(w(big, t), true), (w(big, t), true), (w(su, u), false), (w(big, t), true), (Call::F, true), (w(sv, v), false), (w(big, t), true), (w(big, t), true), (w(big, t), true), (w(su, u), false), (w(st, t), true)]),
+        // the refused shape carries infinities / huge values / NaN measures
+        ("refused-shape-with-special-values", true, t, vec![(w(st, t), true), (w(su_special, u), false), (w(st, t), true), (Call::F, true), (w(su_special, u), false)]),
     ];
     for (name, with_index, file_type, calls) in histories {
         let got = run(&calls, with_index, file_type, &mut bad, name);
@@ -164,6 +168,62 @@ fn extra_histories(t: i32, u: i32, v: i32, st: &Shape, su: &Shape, sv: &Shape) -
         let want = run(&kept, with_index, file_type, &mut ignore, name);
         if got != want {
             bad.push((format!("{}/final-bytes", name), "the files differ from those of the same history without the refused calls".to_string()));
+        }
+    }
+    // ---- the path-created writer: same history on disk
+    if let Some(dir) = dir {
+        let run_path = |name: &str, calls: &[(&Shape, bool)]| -> Option<(Vec<u8>, Vec<u8>)> {
+            let base = format!("{}/c10_{}_{}_{}_{}", dir, t, u, v, name);
+            let path = format!("{}.shp", base);
+            {
+                let mut w = ShapeWriter::from_path(&path).ok()?;
+                for (s, _) in calls {
+                    let _ = write_one(&mut w, s);
+                }
+            }
+            let out = (std::fs::read(&path).ok()?, std::fs::read(format!("{}.shx", base)).ok()?);
+            let _ = std::fs::remove_file(&path);
+            let _ = std::fs::remove_file(format!("{}.shx", base));
+            Some(out)
+        };
+        let calls: Vec<(&Shape, bool)> = vec![(st, true), (su, false), (st, true), (sv, false), (st, true)];
+        let kept: Vec<(&Shape, bool)> = calls.iter().filter(|c| c.1).cloned().collect();
+        match (run_path("a", &calls), run_path("b", &kept)) {
+            (Some(x), Some(y)) => {
+                if x != y {
+                    bad.push(("from_path/final-bytes".to_string(), "the files differ from those of the same history without the refused calls".to_string()));
+                }
+            }
+            _ => bad.push(("from_path/io".to_string(), "harness could not write the files".to_string())),
+        }
+    }
+    // ---- a ShapeWriter that already holds its type, handed to Writer::new: a pair whose shape is
+    //      refused leaves no row behind, the next pair of the file's type is accepted
+    {
+        let run_w = |with_refused: bool| -> Result<Vec<Vec<u8>>, String> {
+            let (a, b, c) = (Dest::new(), Dest::new(), Dest::new());
+            {
+                let mut sw = ShapeWriter::with_shx(a.clone(), b.clone());
+                write_one(&mut sw, st).map_err(|e| err_class(&e))?;
+                // (the table gets a row for that first shape through its own writer below: the set stays aligned)
+                let mut w = Writer::new(sw, table_builder().build_with_dest(c.clone()));
+                if with_refused {
+                    match write_pair(&mut w, su, &row(1)) {
+                        Err(Error::MismatchShapeType { requested, actual }) if requested as i32 == t && actual as i32 == u => {}
+                        other => return Err(format!("refused pair returned {:?}", other.err().map(|e| err_class(&e)))),
+                    }
+                }
+                write_pair(&mut w, st, &row(2)).map_err(|e| format!("pair of the file's type refused: {}", err_class(&e)))?;
+            }
+            Ok(vec![a.data(), b.data(), mask_dbf(c.data())])
+        };
+        match (run_w(true), run_w(false)) {
+            (Ok(x), Ok(y)) => {
+                if x != y {
+                    bad.push(("pre-typed-ShapeWriter-in-Writer/final-bytes".to_string(), "the three files differ from those of the same history without the refused pair".to_string()));
+                }
+            }
+            (Err(e), _) | (_, Err(e)) => bad.push(("pre-typed-ShapeWriter-in-Writer/result".to_string(), e)),
         }
     }
     bad
@@ -403,8 +463,11 @@ pub fn run(ctx: &Ctx) -> Report {
             let case = format!("c10:T{}:U{}:V{}:extra", t, u, v);
             if ctx.want(&case) && v != t && v != u {
                 rep.eval();
-                rep.count("extra_histories(index-less writer, long prefix, third type, NullShape first)", 5);
-                match panicmon::catch(|| extra_histories(t, u, v, &st, &su, &sv)) {
+                rep.count("extra_histories(index-less writer, long prefix, third type, NullShape first, large file, special refused shape, from_path, pre-typed writer)", 9);
+                let big = if gen::is_point(t) { crate::shapes::clone_shape(&st) } else { gen::shape_exact(t, &mut r, &Cfg::plain(1, 2), 2, 1500) };
+                let su_special = gen::shape(u, &mut r, &Cfg::hostile(1.0, 2, 3));
+                let dir = if cfg!(miri) { None } else { Some(ctx.out.clone()) };
+                match panicmon::catch(|| extra_histories(t, u, v, &st, &su, &sv, &big, &su_special, dir.as_deref())) {
                     Err(p) => rep.violation(&format!("({},{})/extra/panic", type_name(t), type_name(u)), &case, J::s(p.class())),
                     Ok(bad) => {
                         for (sig, what) in bad {
